@@ -178,6 +178,91 @@ def can_harness_source(schema: Schema, structs: list) -> str:
     return "\n".join(out) + "\n"
 
 
+def dyn_harness_source(schema: Schema) -> str:
+    """TU for the run-time (reflection-loaded) codec against the static one, both through their JSON entry points:
+    dyn_load(bin, n) -> DynamicSchema*; {sta,dyn}_enc(.., args, out) -> nbytes | -1; {sta,dyn}_dec(.., in, n, area) -> area bytes | -1.
+    The json values are built from / dumped to the flat areas of marshal(); enumerators travel as numbers in the areas and
+    are spelled as names towards the dynamic schema (the representational difference the property allows)."""
+    out = _prelude(['#include "dynamic.h"'])
+    out.append('using json = nlohmann::json;')
+    n = [0]
+    done = {}
+
+    def gen(t):
+        key = repr(t)
+        if key in done:
+            return done[key]
+        n[0] += 1
+        b, d = f"jb{n[0]}", f"jd{n[0]}"
+        done[key] = (b, d)
+        k = t[0]
+        if k in ("u", "i"):
+            c = f"std::{'u' if k == 'u' else ''}int{carrier(t[1])}_t"
+            bb = f"return json(r.get<{c}>());"
+            dd = f"w.put<{c}>(j.get<{c}>());"
+        elif k in ("f32", "f64"):
+            c = "float" if k == "f32" else "double"
+            bb = f"return json(r.get<{c}>());"
+            dd = f"w.put<{c}>(j.get<{c}>());"
+        elif k == "enum":
+            vals = schema.enums[t[1]]
+            cases = " ".join(f'case {v}: return json("{nm}");' for nm, v in vals)
+            bb = (f"auto v = r.get<std::uint64_t>(); if (!dyn) return json(v); switch (v) {{ {cases} default: return json(\"?\"); }}")
+            chain = " ".join(f'if (s == "{nm}") v = {v};' for nm, v in vals)
+            dd = (f"if (!dyn) {{ w.put<std::uint64_t>(j.get<std::uint64_t>()); return; }} auto s = j.get<std::string>(); "
+                  f"std::uint64_t v = ~0ull; {chain} w.put<std::uint64_t>(v);")
+        elif k == "str":
+            bb = "auto n = r.get<std::uint64_t>(); std::string s((const char*)r.p, n); r.p += n; return json(s);"
+            dd = "auto s = j.get<std::string>(); w.put<std::uint64_t>(s.size()); for (unsigned char c : s) w.put<unsigned char>(c);"
+        elif k == "arr":
+            ib, idm = gen(t[1])
+            bb = f"json a = json::array(); for (std::size_t i = 0; i < {t[2]}; i++) a.push_back({ib}(r, dyn)); return a;"
+            dd = f"for (std::size_t i = 0; i < {t[2]}; i++) {idm}(j.at(i), w, dyn);"
+        elif k == "dyn":
+            ib, idm = gen(t[1])
+            bb = "auto n = r.get<std::uint64_t>(); json a = json::array(); for (std::uint64_t i = 0; i < n; i++) a.push_back(%s(r, dyn)); return a;" % ib
+            dd = "w.put<std::uint64_t>(j.size()); for (std::size_t i = 0; i < j.size(); i++) %s(j.at(i), w, dyn);" % idm
+        elif k == "opt":
+            ib, idm = gen(t[1])
+            bb = f"auto h = r.get<unsigned char>(); if (h) return {ib}(r, dyn); return json(nullptr);"
+            dd = f"w.put<unsigned char>(j.is_null() ? 0 : 1); if (!j.is_null()) {idm}(j, w, dyn);"
+        elif k == "struct":
+            fs = schema.struct(t[1])
+            subs = [gen(ft) for _, _, ft in fs]
+            bb = "json o = json::object(); " + " ".join(f'o["{fn}"] = {sb[0]}(r, dyn);' for (fn, _, _), sb in zip(fs, subs)) + " return o;"
+            dd = " ".join(f'{sb[1]}(j.at("{fn}"), w, dyn);' for (fn, _, _), sb in zip(fs, subs))
+        else:
+            raise ValueError(t)
+        out.append(f"static json {b}(Rd& r, bool dyn) {{ {bb} }}")
+        out.append(f"static void {d}(const json& j, Wr& w, bool dyn) {{ {dd} }}")
+        return done[key]
+
+    top = schema.top
+    b, d = gen(("struct", top))
+    out.append('extern "C" void* dyn_load(const char* bin, unsigned long n) { auto* s = new fcp::dynamic::DynamicSchema(); '
+               's->LoadBinarySchema(std::string(bin, n)); return s; }')
+    copy = 'if (!e.has_value()) return -1; for (unsigned long i = 0; i < e->size(); i++) out[i] = (*e)[i]; return (long)e->size();'
+    out.append(f'extern "C" long dyn_enc(void* sp, const unsigned char* args, unsigned char* out) {{ Rd r{{args}}; json j = {b}(r, true); '
+               f'auto e = ((fcp::dynamic::DynamicSchema*)sp)->EncodeJson("{top}", j); {copy} }}')
+    out.append(f'extern "C" long sta_enc(const unsigned char* args, unsigned char* out) {{ Rd r{{args}}; json j = {b}(r, false); '
+               f'fcp::StaticSchema s; auto e = s.EncodeJson("{top}", j); {copy} }}')
+    out.append(f'extern "C" long dyn_dec(void* sp, const unsigned char* in, unsigned long n, unsigned char* area) {{ '
+               f'auto v = ((fcp::dynamic::DynamicSchema*)sp)->DecodeJson("{top}", std::vector<std::uint8_t>(in, in + n)); '
+               f'if (!v.has_value()) return -1; Wr w{{area}}; {d}(*v, w, true); return (long)(w.p - area); }}')
+    out.append(f'extern "C" long sta_dec(const unsigned char* in, unsigned long n, unsigned char* area) {{ fcp::StaticSchema s; '
+               f'auto v = s.DecodeJson("{top}", std::vector<std::uint8_t>(in, in + n)); '
+               f'if (!v.has_value()) return -1; Wr w{{area}}; {d}(*v, w, false); return (long)(w.p - area); }}')
+    return "\n".join(out) + "\n"
+
+
+def reflection_binary(fcp) -> bytes:
+    """The binary reflection the Python tool produces for a parsed schema (what DynamicSchema::LoadBinarySchema reads)."""
+    from fcp.serde import encode as serde_encode
+    from fcp.reflection import get_reflection_schema
+
+    return bytes(serde_encode(get_reflection_schema().unwrap(), "Fcp", fcp.reflection()))
+
+
 def compile_to_ir(outdir: str, opt="-O1"):
     ll = os.path.join(outdir, "harness.ll")
     rc, so, se = run([CLANGXX, "-std=c++17", opt, "-S", "-emit-llvm", "-w", "-I", outdir, "-I", THIRD_PARTY,
